@@ -156,6 +156,27 @@ def run(chk: Check) -> None:
         conts = [n for n in ast.walk(lp) if isinstance(n, (ast.Continue, ast.Break))]
         if has_get and appends and not conts:
             good = True
+    # provenance: what is appended for `opt` is getattr(self, opt) or a re-encoding of that very value
+    for lp in loops:
+        var = lp.target.id if isinstance(lp.target, ast.Name) else None
+        appended = {norm(c.args[0]) for st in ast.walk(lp) for c in [st] if isinstance(c, ast.Call) and isinstance(c.func, ast.Attribute) and c.func.attr == "append" and c.args}
+        for vname in sorted(appended):
+            bad = []
+            for a in ast.walk(lp):
+                if isinstance(a, (ast.Assign, ast.AnnAssign)):
+                    tg = a.targets[0] if isinstance(a, ast.Assign) else a.target
+                    if isinstance(tg, ast.Name) and tg.id == vname and a.value is not None:
+                        rhs = a.value
+                        uses_opt = any(isinstance(x, ast.Call) and norm(x) == f"getattr(self, {var})" for x in ast.walk(rhs))
+                        uses_self_val = any(isinstance(x, ast.Name) and x.id == vname for x in ast.walk(rhs))
+                        other_attrs = [norm(x) for x in ast.walk(rhs) if isinstance(x, ast.Attribute) and isinstance(x.value, ast.Name) and x.value.id == "self"]
+                        if not (uses_opt or uses_self_val) or other_attrs:
+                            bad.append(f"{norm(a)[:70]} (line {a.lineno})")
+            key = f"select_options_affecting_cache: the value recorded for each name is that option's own value (`{vname}`)"
+            if bad:
+                r0.violation(key, sel.loc(lp), "the key entry of an option is computed from something other than getattr(self, <that option>): " + "; ".join(bad) + " — per-module accumulated values (apply_changes) are then missing from the key")
+            else:
+                r0.ok(key, sel.loc(lp))
     rets = [n for n in ast.walk(sel.node) if isinstance(n, ast.Return) and n.value is not None]
     ret_ok = all(isinstance(r.value, ast.Tuple) and any(norm(e) == "self.platform" for e in r.value.elts) for r in rets) and rets
     if good and ret_ok:
